@@ -248,27 +248,6 @@ func knownLawFailure(name string, x any) string {
 		}) {
 			return "yaml-block-scalar-leading-blank"
 		}
-	case "xmlobj":
-		// toXMLFromObject sorts the children by name with sort.Sort (sortx.ProxySort), which is
-		// not stable: with more than 12 children (Go's insertion-sort cut-off) of at least two
-		// different names, children that share a name can change places
-		if anyObject(x, func(m map[string]any) bool {
-			total, repeated := 0, false
-			for k, v := range m {
-				if strings.HasPrefix(k, "@") || strings.HasPrefix(k, "#") {
-					continue
-				}
-				if a, ok := v.([]any); ok {
-					total += len(a)
-					repeated = repeated || len(a) > 1
-				} else {
-					total++
-				}
-			}
-			return total > 12 && repeated
-		}) {
-			return "xml-object-unstable-name-sort"
-		}
 	case "toml":
 		// BurntSushi/toml writes an array that holds a table as an array of tables and silently
 		// drops its non-table elements
@@ -621,7 +600,9 @@ func genLaws(cfg hlib.Config, r *hlib.Rand, o *hlib.Out, ev *evaluator) {
 		}
 		add("xml", xmlTree(r, r.Range(0, 3)))
 		add("xmlseq", xmlSeqTree(r, r.Range(1, 3), "r"))
-		// object form without #seq: children of one name keep their relative order
+		// object form without #seq: children of one name keep their relative order (REQUIRED since
+		// /repo 2017971e made toXMLFromObject's sorts stable; formerly known finding
+		// xml-object-unstable-name-sort)
 		{
 			m := map[string]any{}
 			pool := []string{"a", "b", "c", "d"}[:r.Range(1, 4)]
